@@ -816,8 +816,9 @@ def garbage_rule(m, rid, tier):
             if not ok:
                 run.fail("escapes|%s|%s" % (res[1], src[:24]), "parsing %r (%s) ends in %s (%s): neither a tree nor FortranSyntaxError"
                          % (src, std, res[1], (res[2] or "")[:80]))
-    # generated malformed sources: one token of a sample program deleted, doubled, swapped with another, or a delimiter / keyword
-    # inserted in front of it, or the line cut off behind it (seeded generator: the same sources on every run)
+    # generated malformed sources: one to three mutations of a sample program -- a token deleted, doubled, swapped with another,
+    # replaced by a delimiter / keyword or with one inserted in front of it, the line cut off behind it, a line deleted or doubled,
+    # a character deleted, doubled or replaced by punctuation (seeded generator: the same sources on every run)
     rng = random.Random("garbage")
     pools = [("f2003", PS.VALID), ("f2008", PS.VALID_2008), ("f2008", PS.VALID)]
     small = [n for n in sorted(PS.VALID) if len(PS.VALID[n]) < 420]
@@ -827,7 +828,9 @@ def garbage_rule(m, rid, tier):
         std, table = pools[made % 3]
         names = sorted(table) if tier == "thorough" else ([n for n in sorted(table) if n in small] or sorted(table)[:1])
         name = names[rng.randrange(len(names))]
-        src = mutate_token(table[name], rng)
+        src = table[name]
+        for _ in range(1 + rng.randrange(3)):          # 1-3 mutations, as the property's quantifier has it
+            src = mutate_token(src, rng) if src is not None else None
         if src is None:
             continue
         made += 1
@@ -849,7 +852,7 @@ def garbage_rule(m, rid, tier):
 
 
 GARBAGE_TOKEN = re.compile(r"'[^'\n]*'|\"[^\"\n]*\"|[A-Za-z_]\w*|\d+\.?\d*(?:[eEdD][+-]?\d+)?|\*\*|//|::|=>|==|/=|<=|>=|\.\w+\.|\S")
-GARBAGE_INSERTS = ["(", ")", ",", "=", "::", "'", "*", "%", ":", "/", "(/", "[", ";", "1", "x", ".", " end ", " if ", "=>", "&"]
+GARBAGE_INSERTS = ["(", ")", ",", "=", "::", "'", "*", "%", ":", "/", "(/", "[", ";", "1", "x", ".", " end ", " if ", "=>", "&", "then", "do", "else", "call"]
 
 
 def mutate_token(src, rng):
@@ -859,8 +862,21 @@ def mutate_token(src, rng):
     if not toks:
         return None
     a, b = toks[rng.randrange(len(toks))]
-    kind = ("del", "dup", "ins", "swap", "trunc")[rng.randrange(5)]
+    kind = ("del", "dup", "ins", "swap", "trunc", "rep", "delline", "dupline", "char")[rng.randrange(9)]
     line = lines[k]
+    if kind == "delline":
+        if len(lines) < 2:
+            return None
+        del lines[k]
+        return "\n".join(lines) + "\n"
+    if kind == "dupline":
+        lines.insert(k, lines[k])
+        return "\n".join(lines) + "\n"
+    if kind == "rep":
+        line = line[:a] + GARBAGE_INSERTS[rng.randrange(len(GARBAGE_INSERTS))] + line[b:]
+    if kind == "char":
+        i = rng.randrange(len(line))
+        line = line[:i] + ("", line[i] * 2, "()',=:*/&;!.%\"[]<>+- "[rng.randrange(21)])[rng.randrange(3)] + line[i + 1:]
     if kind == "del":
         line = line[:a] + line[b:]
     elif kind == "dup":
